@@ -21,6 +21,10 @@ PAYLOADS = [
     {'nested': {'a': [1, 2, {'b': None}], 'c': {'d': 1.5}}, 'flag': True},
     {'items': [], 'empty': {}, 'zero': 0, 'neg': -7},
     {'when': '2026-01-02T03:04:05+00:00', 'big': 12345678901234567890},
+    # typed fields (the class declares the field with the type named here; the value is converted when the class is made)
+    {'blob': {'__type__': 'bytes', 'v': 'PNG:https://example.com/0'}, 'n': 1},
+    {'stamp': {'__type__': 'datetime', 'v': '2026-01-02T03:04:05+00:00'}, 'tags': {'__type__': 'set_int', 'v': [3, 1, 2]}},
+    {'maybe': {'__type__': 'opt_float', 'v': None}, 'ratio': {'__type__': 'opt_float', 'v': 2.5}},
 ]
 
 
@@ -488,11 +492,16 @@ def gen_stop(rng, p_cancel=0.3, **_):
     if others and rng.random() < 0.6:
         main.append(['dispatch', rng.choice(others), 'C', 10])
     main.append(['sleep', rng.choice([0, 0, 1 / 64, 3 / 64, 9 / 64, 40 / 64])])
-    if rng.random() < p_cancel:
+    cancelled = rng.random() < p_cancel
+    if cancelled:
         main.append(['cancelrl', 0])
     else:
         main.append(['stop', 0, rng.random() < 0.2])
     main.append(['sleep', rng.choice([0, 10 / 64, 40 / 64])])
+    if cancelled and rng.random() < 0.4:
+        # the bus is used again after its run-loop task was cancelled (and has had time to finish): a new run loop starts
+        main[-1] = ['sleep', rng.choice([10 / 64, 40 / 64])]
+        main += [['dispatch', 0, rng.choice('AB'), 20], ['sleep', 4 / 64]]
     if others and rng.random() < 0.5:
         main.append(['dispatch', rng.choice(others), 'C', 11])
         if rng.random() < 0.5:
